@@ -166,6 +166,19 @@ int main(int argc, char** argv) {
 			munmap(big, n);
 		}
 	}
+	// invalid lengths beyond 2^32 (a length truncated to 32 bits would look valid): recorded as high word + low part
+	{
+		struct { size_t outlen, keylen; } wide[] = { { ((size_t)1 << 32) + 32, 0 }, { ((size_t)3 << 32) + 64, 0 }, { ((size_t)1 << 32) + 1, 0 }, { 32, ((size_t)1 << 32) + 16 }, { 64, ((size_t)2 << 32) + 64 } };
+		for (auto& w : wide) {
+			uint8_t msg[5] = { 1, 2, 3, 4, 5 }; uint8_t buf[CAP]; memset(buf, 0xAA, CAP);
+			static uint8_t keybuf[256]; memset(keybuf, 0x11, sizeof keybuf);
+			int rc = blake2b(buf, w.outlen, msg, 5, w.keylen ? keybuf : nullptr, w.keylen);
+			blake2b_state S; memset(&S, 0, sizeof S);
+			int rc2 = w.keylen ? blake2b_init_key(&S, w.outlen, keybuf, w.keylen) : blake2b_init(&S, w.outlen);
+			Line l; l.str("e", "widelen").num("outHigh", (long long)(w.outlen >> 32)).num("outLow", (long long)(w.outlen & 0xffffffffu)).num("keyHigh", (long long)(w.keylen >> 32)).num("keyLow", (long long)(w.keylen & 0xffffffffu))
+				.num("rc", rc).num("rcInit", rc2).bytes("out", buf, CAP); l.emit(out);
+		}
+	}
 	// misuse / invalid parameters of the streaming interface
 	stream(rng, 0, 0, false, false, { 5 }, 64, false);
 	stream(rng, 65, 0, false, false, { 5 }, 64, false);
